@@ -53,6 +53,10 @@ def base_form(rng):
                             {"label": "ff", "parameters": rng.choice(["value=code label=nm", "value=v1", "label=l1"])}))
     if rng.random() < 0.2:
         f.settings["instance_id"] = rng.choice(["uid", "myid"])
+    if rng.random() < 0.25:
+        # the legacy 'disabled' column (still honoured, with a warning): a row switched off and a row left on
+        f.survey.append(Row("q", "text", "dis_off", {"label": "off", "disabled": rng.choice(["yes", "true"])}))
+        f.survey.append(Row("q", "text", "dis_on", {"label": "on", "disabled": rng.choice(["no", "false"])}))
     if rng.random() < 0.2 and f.entities is None:
         f.extra_sheets[rng.choice(["entities", "settings"]) if not f.settings else "entities"] = (["list_name", "label"], [])  # an optional sheet with a header row only
     # truth values on group / repeat rows too (read-only group, a repeat switched off)
@@ -237,9 +241,67 @@ def dict_reuse_history(ctx, i, rng, form):
                  f"workbook of the same content in {what}: {detail}"[:800], common.witness(form, history="convert; insert blank rows re-using row objects; convert"))
 
 
+def sweep_form():
+    """One form that uses every catalogued survey, choices and settings column with a value that shows in the output."""
+    from ..model import Form, Row
+    f = Form()
+    f.survey = [
+        Row("q", "integer", "n0", {"label": "N", "hint": "h", "guidance_hint": "gh", "image": "a.png", "audio": "a.mp3", "video": "a.mp4", "big-image": "b.png",
+                                   "relevant": "1 = 1", "required": "yes", "read_only": "no", "constraint": ". > 0", "constraint_message": "cm", "required_message": "rm",
+                                   "default": "3", "appearance": "numbers", "save_to": "prop_a", "no_app_error_string": "none"}),
+        Row("q", "calculate", "c0", {"calculation": "1 + 1", "trigger": "${n0}"}),
+        Row("q", "select_one l1", "s0", {"label": "S", "choice_filter": "name != ''", "parameters": "randomize=true"}),
+        Row("repeat", "begin repeat", "r0", {"label": "R", "repeat_count": "2"}, [Row("q", "text", "t0", {"label": "T"})]),
+        Row("q", "text", "dis_off", {"label": "off", "disabled": "yes"}),
+        Row("q", "text", "dis_on", {"label": "on", "disabled": "no"}),
+    ]
+    f.choices = {"l1": [{"name": "a", "label": "A", "image": "ca.png", "audio": "ca.mp3", "video": "ca.mp4", "big-image": "cb.png"}, {"name": "b", "label": "B"}]}
+    f.settings = {"form_title": "Sweep", "form_id": "sweep", "version": "7", "default_language": "en", "instance_name": "concat('x', ${n0})", "submission_url": "https://example.org/s",
+                  "public_key": "abc", "style": "pages", "auto_send": "true", "auto_delete": "false", "namespaces": 'ex="http://example.org/ex"', "instance_xmlns": "http://example.org/x",
+                  "name": "sweepdata", "allow_choice_duplicates": "no"}
+    f.entities = {"list_name": "ent", "label": "'x'"}
+    return f
+
+
+def column_sweep(ctx):
+    """Every catalogued column header, alone, in each case/spacing style: the random pick of t_header_case reaches rare columns too seldom."""
+    form = sweep_form()
+    sheets = form.to_sheets()
+    a = drive.convert_sheets(sheets, args=form.args)
+    if not a.ok:
+        ctx.ctr("sweep_form_rejected")
+        ctx.obs("column sweep form rejected: " + a.brief()) if hasattr(ctx, "obs") else None
+        return
+    n = 0
+    for key, known in (("survey", spelling.KNOWN_SURVEY), ("choices", spelling.KNOWN_CHOICES), ("settings", spelling.KNOWN_SETTINGS)):
+        hdrs, rows = sheets[key]
+        for ci, h in enumerate(hdrs):
+            if h not in known:
+                continue
+            for style in range(4):
+                n += 1
+                if not ctx.mine(n):
+                    continue
+                nb = [h.upper(), h.title(), "  " + h + " ", h.replace("_", " ") if h != "big-image" else h][style]
+                if nb == h:
+                    continue
+                ts = dict(sheets)
+                ts[key] = (hdrs[:ci] + [nb] + hdrs[ci + 1:], rows)
+                for fmt in ("dict", "xlsx"):
+                    b = drive.convert_sheets(ts, fmt=fmt, args=form.args)
+                    ctx.ctr("column_sweep_pairs")
+                    ctx.ctr("pairs_compared")
+                    ctx.case(sig=f"sweep|{key}|{h}|{style}|{fmt}")
+                    done = [f"header-case:{key}:{h}->{nb!r}"]
+                    diffs = differences(a, b, {})
+                    for kind, text in diffs:
+                        ctx.viol(f"{kind}:header-case:{key}", f"column sweep, T={done} ({fmt}): {text}"[:900], _wit(form, done, {}, fmt, ts))
+
+
 def run_shard(ctx):
     pl = plan(ctx.tier, ctx.seed)
     names = list(spelling.BY_NAME)
+    column_sweep(ctx)
     for i in range(pl["n"]):
         if not ctx.mine(i):
             continue
